@@ -3,7 +3,7 @@
    Finish, a minimal model of NetAccepter composed with Loop, and termination of the internal steps.
    Restated in coq/props/C20.v. *)
 From Coq Require Import List Arith Bool Lia.
-From JV Require Import Loop LoopProofs.
+From JV Require Import Loop LoopProofs NetAccepter.
 Import ListNotations.
 
 (* ------------------------------------------------------------------ *)
@@ -297,4 +297,371 @@ Proof.
     destruct P as [P|P]; rewrite P in Dk, PT; destruct Dk as [i0 [S0 [_ [A0 U0]]]];
       rewrite S in S0; inversion S0; subst i0; rewrite A in A0; inversion A0; subst a;
       (split; [reflexivity|]); (split; [exists c; auto|]); repeat split; try (apply PT; simpl; tauto); exact NF.
+Qed.
+
+(* ------------------------------------------------------------------ *)
+(* 5. Loop over NetAccepter *)
+
+(* the Loop label a step of the composed system stands for *)
+Definition loop_label (x : state * na_state) (l : jlabel) : list label :=
+  match l with
+  | JLoop l0 => [l0]
+  | JCtxEnd => [CtxEnd]
+  | JNA NARet => match na_call (snd x) with
+                 | CGotConn => [Accept (length (conns (fst x)))]
+                 | CGotErr e => [AcceptErr e]
+                 | _ => []
+                 end
+  | JNA _ => []
+  end.
+
+(* the Loop trace of a run of the composed system *)
+Fixpoint jproj (x : state * na_state) (tr : list jlabel) : list label :=
+  match tr with
+  | [] => []
+  | l :: r => match jstep x l with
+              | None => []
+              | Some (s1, a1, _) => loop_label x l ++ jproj (s1, a1) r
+              end
+  end.
+
+Definition jreach (tr : list jlabel) (s : state) (a : na_state) : Prop :=
+  exists os, jrun jinit tr = Some ((s, a), os).
+
+Lemma step_ctxend : forall s s' os, step s CtxEnd = Some (s', os) -> ctx_done s = false /\ s' = set_ctx true s /\ os = [].
+Proof. intros s s' os H. inv_step H. auto. Qed.
+
+Lemma step_ctx_same : forall s l s' os, step s l = Some (s', os) -> l <> CtxEnd -> ctx_done s' = ctx_done s.
+Proof. intros s l s' os H N. destruct l; inv_step H; simpl; try reflexivity; try congruence; destruct (fix_F10 s); reflexivity. Qed.
+
+Lemma step_return_waiting : forall s v s' os, step s (LoopReturn v) = Some (s', os) -> acc s <> Accepting.
+Proof. intros s v s' os H. inv_step H; try congruence. Qed.
+
+Local Opaque step.
+
+Lemma jstep_loop : forall s a l s' a' os, jstep (s, a) l = Some (s', a', os) ->
+  run s (loop_label (s, a) l) = Some (s', os).
+Proof.
+  intros s a l s' a' os H. unfold jstep in H. destruct l as [l0|l0|].
+  - destruct (loop_only l0); [|discriminate]. destruct (step s l0) as [[s1 o1]|] eqn:E; [|discriminate].
+    inversion H; subst. simpl. rewrite E. now rewrite app_nil_r.
+  - destruct l0; simpl in *; try discriminate.
+    + destruct (acc s); try discriminate. destruct (na_call a); try discriminate. now inversion H.
+    + destruct (nth_error (na_ws a) j) as [[| |]|]; try discriminate; destruct (na_ctx a); try discriminate; now inversion H.
+    + destruct (nth_error (na_ws a) j) as [[| |]|]; try discriminate; now inversion H.
+    + destruct (na_call a); try discriminate. destruct (na_lclosed a); try discriminate. now inversion H.
+    + destruct (na_call a); try discriminate. destruct e; [destruct (na_lclosed a); try discriminate|]; now inversion H.
+    + destruct (na_call a); try discriminate.
+      * destruct (step s (Accept (length (conns s)))) as [[s1 o1]|] eqn:E; [|discriminate]. inversion H; subst.
+        cbn [run]. rewrite E. now rewrite app_nil_r.
+      * destruct (step s (AcceptErr e)) as [[s1 o1]|] eqn:E; [|discriminate]. inversion H; subst.
+        cbn [run]. rewrite E. now rewrite app_nil_r.
+  - destruct (step s CtxEnd) as [[s1 o1]|] eqn:E; [|discriminate].
+    destruct (na_step a NACtxEnd) as [[a1 r1]|]; [|discriminate]. inversion H; subst. simpl loop_label.
+    cbn [run]. rewrite E. now rewrite app_nil_r.
+Qed.
+
+Lemma jrun_proj : forall tr s a s' a' os, jrun (s, a) tr = Some ((s', a'), os) ->
+  run s (jproj (s, a) tr) = Some (s', os).
+Proof.
+  induction tr as [|l tr IH]; intros s a s' a' os H.
+  - simpl in H. inversion H; subst. reflexivity.
+  - cbn [jrun] in H. cbn [jproj]. destruct (jstep (s, a) l) as [[[s1 a1] o1]|] eqn:E; [|discriminate].
+    destruct (jrun (s1, a1) tr) as [[x2 o2]|] eqn:E2; [|discriminate]. inversion H; subst.
+    rewrite run_app, (jstep_loop _ _ _ _ _ _ E), (IH _ _ _ _ _ E2). reflexivity.
+Qed.
+
+Lemma jreach_reach : forall tr s a, jreach tr s a -> reach (jproj jinit tr) s.
+Proof. intros tr s a [os H]. exists os. exact (jrun_proj _ _ _ _ _ _ H). Qed.
+
+Lemma jrun_app : forall t1 t2 x,
+  jrun x (t1 ++ t2) = match jrun x t1 with
+                      | None => None
+                      | Some (x1, o1) => match jrun x1 t2 with
+                                         | None => None
+                                         | Some (x2, o2) => Some (x2, o1 ++ o2)
+                                         end
+                      end.
+Proof.
+  induction t1 as [|l t1 IH]; intros t2 x; simpl.
+  - destruct (jrun x t2) as [[x2 o2]|]; reflexivity.
+  - destruct (jstep x l) as [[[s1 a1] o1]|]; [|reflexivity].
+    rewrite IH. destruct (jrun (s1, a1) t1) as [[x2 o2]|]; [|reflexivity].
+    destruct (jrun x2 t2) as [[x3 o3]|]; [|reflexivity]. now rewrite app_assoc.
+Qed.
+
+Lemma jproj_app : forall t1 t2 x x1 o1, jrun x t1 = Some (x1, o1) ->
+  jproj x (t1 ++ t2) = jproj x t1 ++ jproj x1 t2.
+Proof.
+  induction t1 as [|l t1 IH]; intros t2 x x1 o1 H.
+  - simpl in H. inversion H; subst. reflexivity.
+  - cbn [jrun] in H. cbn [app jproj]. destruct (jstep x l) as [[[s1 a1] o]|]; [|discriminate].
+    destruct (jrun (s1, a1) t1) as [[x2 o2]|] eqn:E2; [|discriminate]. inversion H; subst.
+    rewrite (IH t2 _ _ _ E2). now rewrite app_assoc.
+Qed.
+
+Lemma jreach_ind : forall P : list jlabel -> state -> na_state -> Prop,
+  P [] (init true) na_init ->
+  (forall tr s a l s' a' os, jreach tr s a -> P tr s a -> jstep (s, a) l = Some (s', a', os) ->
+     jproj jinit (tr ++ [l]) = jproj jinit tr ++ loop_label (s, a) l -> P (tr ++ [l]) s' a') ->
+  forall tr s a, jreach tr s a -> P tr s a.
+Proof.
+  intros P H0 HS tr. induction tr as [|l tr IH] using rev_ind; intros s a [os H].
+  - simpl in H. inversion H; subst. exact H0.
+  - rewrite jrun_app in H. destruct (jrun jinit tr) as [[[s1 a1] o1]|] eqn:E1; [|discriminate].
+    cbn [jrun] in H. destruct (jstep (s1, a1) l) as [[[s2 a2] o2]|] eqn:E2; [|discriminate]. inversion H; subst.
+    apply (HS tr s1 a1 l s a o2); [exists o1; exact E1|apply IH; exists o1; exact E1|exact E2|].
+    rewrite (jproj_app _ _ _ _ _ E1). cbn [jproj]. rewrite E2. now rewrite app_nil_r.
+Qed.
+
+Record JInv (tr : list jlabel) (s : state) (a : na_state) : Prop := {
+  j_ctx : ctx_done s = na_ctx a;
+  j_lclosed : na_lclosed a = true -> na_ctx a = true;
+  j_blocked : na_call a = CBlocked -> na_lclosed a = true \/ exists j, nth_error (na_ws a) j = Some WOpen;
+  j_ctx_tr : na_ctx a = true -> In JCtxEnd tr;
+  j_goterr : forall e, na_call a = CGotErr e -> In (JNA (NAErr e)) tr;
+  j_closing : In (JNA (NAErr EClosing)) tr -> In JCtxEnd tr;
+  j_accerr : forall e, In (AcceptErr e) (jproj jinit tr) -> In (JNA (NAErr e)) tr;
+  j_busy : na_call a <> CIdle -> acc s = Accepting
+}.
+
+Lemma nth_upd_const_open : forall (ws : list wst) j j' w, w <> WOpen ->
+  nth_error ws j = Some WOpen -> nth_error ws j' <> Some WOpen \/ j' <> j ->
+  j' <> j -> nth_error (upd_nth j' (fun _ => w) ws) j = Some WOpen.
+Proof. intros ws j j' w _ H _ N. rewrite nth_upd_other by congruence. exact H. Qed.
+
+Lemma in_snoc_l : forall {A} (x : A) tr l, In x tr -> In x (tr ++ [l]).
+Proof. intros. apply in_or_app. now left. Qed.
+
+Ltac jclose I6 :=
+  let X := fresh "X" in
+  intros X; apply in_snoc_l; apply I6; apply in_app_or in X; destruct X as [X|[X|[]]]; [exact X|discriminate].
+Ltac jacc ACC I7 :=
+  let e := fresh "e" in let X := fresh "X" in let Y := fresh "Y" in
+  intros e X; apply in_snoc_l; destruct (ACC e X) as [Y|Y]; [now apply I7|destruct Y].
+Ltac jauto ACC I6 I7 :=
+  constructor; simpl; auto using in_snoc_l; try discriminate; try congruence;
+  try solve [jclose I6]; try solve [jacc ACC I7].
+
+Lemma jinv_reach : forall tr s a, jreach tr s a -> JInv tr s a.
+Proof.
+  apply jreach_ind.
+  - constructor; simpl; try discriminate; try tauto; try (intros; discriminate).
+  - intros tr s a l s' a' os R I H HP.
+    destruct I as [I1 I2 I3 I4 I5 I6 I7 I8].
+    assert (ACC : forall e, In (AcceptErr e) (jproj jinit (tr ++ [l])) ->
+                  In (AcceptErr e) (jproj jinit tr) \/ In (AcceptErr e) (loop_label (s, a) l)).
+    { intros e X. rewrite HP in X. now apply in_app_or in X. }
+    unfold jstep in H. destruct l as [l0|l0|].
+    + (* a step of Loop alone *)
+      destruct (loop_only l0) eqn:LO; [|discriminate]. destruct (step s l0) as [[s1 o1]|] eqn:E; [|discriminate].
+      inversion H; subst. clear H.
+      assert (NC : l0 <> CtxEnd) by (intros ->; discriminate).
+      assert (NA1 : forall e, l0 <> AcceptErr e) by (intros e ->; discriminate).
+      jauto ACC I6 I7.
+      * rewrite (step_ctx_same _ _ _ _ E NC). exact I1.
+      * intros e X. apply in_snoc_l. destruct (ACC e X) as [Y|Y]; [now apply I7|]. simpl in Y. destruct Y as [Y|[]]. exfalso. exact (NA1 e Y).
+      * intros X. specialize (I8 X).
+        assert (NR : forall v, l0 <> LoopReturn v).
+        { intros v ->. exact (step_return_waiting _ _ _ _ E I8). }
+        rewrite (step_acc_same _ _ _ _ E NA1 NR). exact I8.
+    + (* a step of NetAccepter *)
+      destruct l0; simpl in H; try discriminate.
+      * (* NACall *)
+        destruct (acc s) eqn:A; try discriminate. destruct (na_call a) eqn:C; try discriminate. inversion H; subst. clear H.
+        jauto ACC I6 I7.
+        intros _. right. exists (length (na_ws a)). rewrite nth_error_app2 by lia. now rewrite Nat.sub_diag.
+      * (* NAWatchClose *)
+        destruct (nth_error (na_ws a) j) as [[| |]|] eqn:W; try discriminate;
+          destruct (na_ctx a) eqn:CX; try discriminate; inversion H; subst; clear H; jauto ACC I6 I7.
+      * (* NAWatchExit *)
+        destruct (nth_error (na_ws a) j) as [[| |]|] eqn:W; try discriminate. inversion H; subst. clear H.
+        jauto ACC I6 I7.
+        intros X. destruct (I3 X) as [Y|[j' Y]]; [now left|]. right. exists j'.
+        destruct (Nat.eq_dec j' j) as [->|N]; [congruence|]. now rewrite nth_upd_other.
+      * (* NAConn *)
+        destruct (na_call a) eqn:C; try discriminate. destruct (na_lclosed a) eqn:LC; try discriminate. inversion H; subst. clear H.
+        jauto ACC I6 I7.
+        intros _. apply I8. congruence.
+      * (* NAErr *)
+        destruct (na_call a) eqn:C; try discriminate.
+        assert (G : (e = EClosing -> na_lclosed a = true) /\ s' = s /\
+                    a' = mkNA (na_ctx a) (na_lclosed a) (CGotErr e) (na_ws a) /\ os = []).
+        { destruct e; [destruct (na_lclosed a); try discriminate|]; inversion H; subst; repeat split; auto; discriminate. }
+        destruct G as [G1 [-> [-> ->]]]. clear H.
+        jauto ACC I6 I7.
+        -- intros e' X. inversion X; subst. apply in_or_app. right. now left.
+        -- intros X. apply in_snoc_l. apply in_app_or in X. destruct X as [X|[X|[]]]; [now apply I6|].
+           inversion X; subst. apply I4, I2, G1. reflexivity.
+        -- intros _. apply I8. congruence.
+      * (* NARet *)
+        destruct (na_call a) eqn:C; try discriminate.
+        -- destruct (step s (Accept (length (conns s)))) as [[s1 o1]|] eqn:E; [|discriminate]. inversion H; subst. clear H.
+           jauto ACC I6 I7.
+           ++ rewrite (step_ctx_same _ _ _ _ E); [exact I1|discriminate].
+           ++ intros e X. apply in_snoc_l. destruct (ACC e X) as [Y|Y]; [now apply I7|].
+              simpl in Y. rewrite C in Y. destruct Y as [Y|[]]. discriminate.
+        -- destruct (step s (AcceptErr e)) as [[s1 o1]|] eqn:E; [|discriminate]. inversion H; subst. clear H.
+           jauto ACC I6 I7.
+           ++ rewrite (step_ctx_same _ _ _ _ E); [exact I1|discriminate].
+           ++ intros e' X. apply in_snoc_l. destruct (ACC e' X) as [Y|Y]; [now apply I7|].
+              simpl in Y. rewrite C in Y. destruct Y as [Y|[]]. inversion Y; subst. now apply I5.
+    + (* the context ends *)
+      destruct (step s CtxEnd) as [[s1 o1]|] eqn:E; [|discriminate].
+      simpl in H. destruct (na_ctx a) eqn:CX; [discriminate|]. inversion H; subst. clear H.
+      destruct (step_ctxend _ _ _ E) as [E1 [-> ->]].
+      constructor; simpl; auto using in_snoc_l; try (intros; apply in_or_app; right; now left);
+        try solve [intros X; specialize (I2 X); discriminate].
+      intros e X. apply in_snoc_l. destruct (ACC e X) as [Y|Y]; [now apply I7|]. simpl in Y. destruct Y as [Y|[]]. discriminate.
+Qed.
+
+Lemma ws_enabled_open : forall ws off j, nth_error ws j = Some WOpen ->
+  In (NAWatchClose (off + j)) (ws_enabled true off ws).
+Proof.
+  induction ws as [|w ws IH]; intros off [|j] H; simpl in H; try discriminate.
+  - inversion H; subst. simpl. rewrite Nat.add_0_r. now left.
+  - simpl. apply in_or_app. right. rewrite <- Nat.add_succ_comm. now apply IH.
+Qed.
+
+Lemma ws_enabled_nil : forall ws off, ws_enabled true off ws = [] ->
+  forall j w, nth_error ws j = Some w -> w = WGone.
+Proof.
+  induction ws as [|w0 ws IH]; intros off H [|j] w E; simpl in E; try discriminate.
+  - inversion E; subst. simpl in H. destruct w; [discriminate|discriminate|reflexivity].
+  - simpl in H. apply app_eq_nil in H. destruct H as [_ H]. exact (IH _ H j w E).
+Qed.
+
+Lemma jreach_prefix : forall t1 t2 s a, jreach (t1 ++ t2) s a -> exists s1 a1, jreach t1 s1 a1.
+Proof.
+  intros t1 t2 s a [os H]. rewrite jrun_app in H. destruct (jrun jinit t1) as [[[s1 a1] o1]|] eqn:E; [|discriminate].
+  exists s1, a1, o1. exact E.
+Qed.
+
+(* NetAccepter yields the closing error only after the context has ended: the listener is closed only by a
+   watcher that saw ctx.Done(); every error Loop receives from Accept is one Listener.Accept returned *)
+Lemma na_closing_error : forall tr s a, jreach tr s a ->
+  ctx_done s = na_ctx a /\
+  (na_lclosed a = true -> ctx_done s = true /\ In JCtxEnd tr) /\
+  (forall e, In (AcceptErr e) (jproj jinit tr) -> In (JNA (NAErr e)) tr) /\
+  (forall t1 t2, tr = t1 ++ JNA (NAErr EClosing) :: t2 -> In JCtxEnd t1) /\
+  (In (AcceptErr EClosing) (jproj jinit tr) -> In JCtxEnd tr).
+Proof.
+  intros tr s a R. pose proof (jinv_reach _ _ _ R) as I. split; [apply (j_ctx _ _ _ I)|]. split; [|split; [|split]].
+  - intros L. pose proof (j_lclosed _ _ _ I L) as C. split; [now rewrite (j_ctx _ _ _ I)|now apply (j_ctx_tr _ _ _ I)].
+  - apply (j_accerr _ _ _ I).
+  - intros t1 t2 E. subst tr.
+    assert (R' : jreach ((t1 ++ [JNA (NAErr EClosing)]) ++ t2) s a) by (rewrite <- app_assoc; exact R).
+    destruct (jreach_prefix _ _ _ _ R') as [s1 [a1 R1]]. pose proof (jinv_reach _ _ _ R1) as I1.
+    assert (X : In JCtxEnd (t1 ++ [JNA (NAErr EClosing)])) by (apply (j_closing _ _ _ I1); apply in_or_app; right; now left).
+    apply in_app_or in X. destruct X as [X|[X|[]]]; [exact X|discriminate].
+  - intros X. apply (j_closing _ _ _ I). now apply (j_accerr _ _ _ I).
+Qed.
+
+(* CONTEXT END -> LOOP RETURNS NIL.  Loop over NetAccepter, any interleaving; the context has ended; no step of
+   Loop, of its servers, or of NetAccepter is enabled any more (jquiescent; the arrival of a new connection and a
+   failure of the listener itself are the environment's).  Then the accept loop is over and no Accept call or
+   watcher goroutine of NetAccepter is left; the connections are done or are stopped servers waiting for a
+   handler; and if no handler is running Loop has returned - nil, provided the listener never failed by itself. *)
+Lemma ctx_end_returns_nil : forall tr s a, jreach tr s a -> ctx_done s = true -> jquiescent (s, a) = true ->
+  acc s <> Accepting /\ na_call a = CIdle /\ (forall j w, nth_error (na_ws a) j = Some w -> w = WGone) /\
+  quiescent s = true /\
+  (forall k c, get s k = Some c -> is_done (c_phase c) = true \/ (exists st, c_phase c = PStopping st /\ c_busy c > 0)) /\
+  ((forall k c, get s k = Some c -> c_busy c = 0) ->
+     exists e, acc s = Returned (retv_of e) /\ In (JNA (NAErr e)) tr /\ In (LoopReturn (retv_of e)) (jproj jinit tr) /\
+               (~ In (JNA (NAErr EOther)) tr -> e = EClosing /\ acc s = Returned RNil)).
+Proof.
+  intros tr s a R C Q. pose proof (jinv_reach _ _ _ R) as I. pose proof (jreach_reach _ _ _ R) as RL.
+  assert (CA : na_ctx a = true) by (rewrite <- (j_ctx _ _ _ I); exact C).
+  unfold jquiescent, jenabled in Q.
+  destruct (map JLoop _ ++ map JNA (na_enabled a) ++ _) eqn:E in Q; [|discriminate]. clear Q.
+  apply app_eq_nil in E. destruct E as [E1 E2]. apply app_eq_nil in E2. destruct E2 as [E2 E3].
+  apply map_eq_nil in E1. apply map_eq_nil in E2.
+  unfold na_enabled in E2. apply app_eq_nil in E2. destruct E2 as [E2a E2b]. rewrite CA in E2b.
+  assert (CI : na_call a = CIdle).
+  { destruct (na_call a) eqn:CC; [reflexivity| | |]; try discriminate.
+    destruct (na_lclosed a) eqn:L; [discriminate|].
+    destruct (j_blocked _ _ _ I CC) as [X|[j X]]; [congruence|].
+    pose proof (ws_enabled_open _ 0 _ X) as Y. rewrite E2b in Y. destruct Y. }
+  assert (NA : acc s <> Accepting).
+  { intros A. rewrite A, CI in E3. discriminate. }
+  split; [exact NA|]. split; [exact CI|]. split; [exact (ws_enabled_nil _ _ E2b)|].
+  assert (QL : quiescent s = true).
+  { unfold quiescent, enabled_internal, enabled. destruct (acc s) eqn:A; [congruence| |]; rewrite E1; reflexivity. }
+  split; [exact QL|].
+  destruct (ctx_stops_all _ _ RL C) as [_ [_ [_ H4]]]. destruct (H4 QL) as [H5 [_ H6]].
+  split; [exact H5|].
+  intros NB. specialize (H6 NB). pose proof (acc_hist_reach _ _ RL) as AH. unfold acc_hist, returned in *.
+  destruct (acc s) as [|e0|v]; try discriminate.
+  destruct AH as [e [-> [X1 [_ X2]]]]. exists e. split; [reflexivity|]. split; [now apply (j_accerr _ _ _ I)|]. split; [exact X2|].
+  intros NO. destruct e; [split; reflexivity|]. exfalso. apply NO. now apply (j_accerr _ _ _ I).
+Qed.
+
+Local Transparent step.
+
+(* ------------------------------------------------------------------ *)
+(* non-vacuity *)
+
+(* the accepter fails (not a closing error), the context never ends; the one server stops when its peer
+   closes; when it has exited and been finished Loop returns the error *)
+Definition exm_trace : list label :=
+  [Accept 0; NewSvc 0; AssignerOk 0; StartSrv 0; AcceptErr EOther; PeerClose 0; SrvStop 0 StClosed;
+   SrvExit 0 StClosed; Finish 0; ConnDone 0; LoopReturn RErr].
+
+Example quiescent_general_nonvacuous :
+  (exists s, reach exm_trace s /\ quiescent s = true /\ ctx_done s = false /\ In (AcceptErr EOther) exm_trace /\
+             acc s = Returned RErr /\ forall k c, get s k = Some c -> c_phase c <> PRunning /\ forall st, c_phase c <> PStopping st) /\
+  (* while the server runs (peer still there) the state is quiescent and Loop has not returned *)
+  (exists s c, reach (firstn 5 exm_trace) s /\ quiescent s = true /\ acc s = Waiting EOther /\
+               get s 0 = Some c /\ c_phase c = PRunning).
+Proof.
+  split.
+  - eexists. split; [eexists; vm_compute; reflexivity|].
+    split; [vm_compute; reflexivity|]. split; [vm_compute; reflexivity|]. split; [vm_compute; tauto|].
+    split; [vm_compute; reflexivity|]. intros k c H. vm_compute in H.
+    destruct k as [|[|k]]; simpl in H; inversion H; subst; split; [discriminate|intros st; discriminate].
+  - eexists; eexists. split; [eexists; vm_compute; reflexivity|]. vm_compute. repeat split.
+Qed.
+
+Example exit_means_idle_nonvacuous :
+  exists t1 t2, ex_trace = t1 ++ SrvExit 0 StStopped :: t2 /\ In (CallEnd 0) t1 /\ reach ex_trace ex_state.
+Proof.
+  exists (firstn 13 ex_trace), (skipn 14 ex_trace). split; [reflexivity|]. split; [vm_compute; tauto|exact reach_nonvacuous].
+Qed.
+
+Example run_accounts_nonvacuous :
+  exists s os, run (init true) ex_trace = Some (s, os) /\ newsvc_of os = [0; 1] /\ finish_of os = [(0, 0, StStopped)] /\
+               finish_log s = [(0, 0, 0, StStopped)] /\ In (AssignerFail 1) ex_trace.
+Proof. eexists; eexists. vm_compute. repeat split; tauto. Qed.
+
+(* Loop over NetAccepter: one connection is served; the context ends while the second Accept call blocks; the
+   watcher closes the listener, Accept returns the closing error, the server is stopped, Loop returns nil *)
+Definition exj_trace : list jlabel :=
+  [JNA NACall; JNA NAConn; JNA NARet; JLoop (NewSvc 0); JLoop (AssignerOk 0); JLoop (StartSrv 0); JNA NACall;
+   JCtxEnd; JNA (NAWatchClose 1); JNA (NAErr EClosing); JNA NARet; JLoop (SrvStop 0 StStopped);
+   JLoop (SrvExit 0 StStopped); JLoop (Finish 0); JLoop (ConnDone 0); JLoop (LoopReturn RNil); JNA (NAWatchExit 0)].
+
+Example ctx_end_returns_nil_nonvacuous :
+  exists s a, jreach exj_trace s a /\ ctx_done s = true /\ jquiescent (s, a) = true /\
+              (forall k c, get s k = Some c -> c_busy c = 0) /\ ~ In (JNA (NAErr EOther)) exj_trace /\
+              acc s = Returned RNil /\
+              jproj jinit exj_trace = [Accept 0; NewSvc 0; AssignerOk 0; StartSrv 0; CtxEnd; AcceptErr EClosing;
+                                       SrvStop 0 StStopped; SrvExit 0 StStopped; Finish 0; ConnDone 0; LoopReturn RNil].
+Proof.
+  eexists; eexists. split; [eexists; vm_compute; reflexivity|].
+  split; [vm_compute; reflexivity|]. split; [vm_compute; reflexivity|]. split.
+  { intros k c H. vm_compute in H. destruct k as [|[|k]]; simpl in H; inversion H; subst; reflexivity. }
+  split.
+  { intros H. repeat (destruct H as [H|H]; [discriminate|]). exact H. }
+  split; vm_compute; reflexivity.
+Qed.
+
+(* before the context ends the blocked Accept is not an internal step: the composed system is quiescent with
+   Loop still accepting; and a failure of the listener itself makes Loop return the error *)
+Example na_blocks_until_ctx_nonvacuous :
+  (exists s a, jreach [JNA NACall; JNA NAConn; JNA NARet; JNA (NAWatchExit 0); JLoop (NewSvc 0); JLoop (AssignerOk 0);
+                       JLoop (StartSrv 0); JNA NACall] s a /\ jquiescent (s, a) = true /\ acc s = Accepting /\ na_call a = CBlocked) /\
+  (exists s a, jreach [JNA NACall; JNA (NAErr EOther); JNA NARet; JLoop (LoopReturn RErr)] s a /\
+               acc s = Returned RErr /\ ctx_done s = false).
+Proof.
+  split; eexists; eexists; (split; [eexists; vm_compute; reflexivity|]); vm_compute; repeat split; reflexivity.
 Qed.
